@@ -35,6 +35,7 @@ type World struct {
 	inlining  map[*types.Func]bool
 	closureLits map[types.Object]*ast.FuncLit
 	trustedPure []string
+	guards      map[string]*Guard // field key -> guard
 	recRet    map[string]Val
 	loadErrs  []string
 	aliases   map[string]map[string]string // pkgpath -> import path -> local name
@@ -56,7 +57,7 @@ func loadWorld(repo string, patterns []string, overlay map[string][]byte) (*Worl
 	}
 	w := &World{
 		pkgs: map[string]*packages.Package{}, decls: map[*types.Func]*declInfo{}, declsByName: map[string]*declInfo{},
-		contracts: map[string]*Contract{}, macros: map[string][]*Macro{}, heapSorts: map[string]Val{},
+		contracts: map[string]*Contract{}, macros: map[string][]*Macro{}, heapSorts: map[string]Val{}, guards: map[string]*Guard{},
 		allocs: map[*FV][]string{}, inlining: map[*types.Func]bool{}, closureLits: map[types.Object]*ast.FuncLit{},
 		recRet: map[string]Val{}, aliases: map[string]map[string]string{},
 	}
@@ -251,6 +252,9 @@ func (w *World) loadSpecs(speclib string) error {
 			w.macros[m.Name] = append(w.macros[m.Name], m)
 		}
 		w.axioms = append(w.axioms, sf.Axioms...)
+		for _, g := range sf.Guards {
+			w.guards[g.Pkg+"."+g.Type+"."+g.Field] = g
+		}
 	}
 	// trusted pure list
 	if b, err := os.ReadFile(filepath.Join(speclib, "trusted_pure.txt")); err == nil {
